@@ -108,7 +108,7 @@ func gen(r *vk.Run, n int) error {
 	sh := &shared{}
 	rng := r.Rng
 	// --- the two known findings, replayed first, deterministically
-	if err := runScenario(r, lockScenario(), sh, "known-lock"); err != nil {
+	if err := runScenario(r, lockScenario(), sh, "lock-regression"); err != nil {
 		return err
 	}
 	if err := runScenario(r, raceScenario(), sh, "known-race"); err != nil {
